@@ -1179,8 +1179,13 @@ impl<'a> World<'a> {
                         let partial = self.plan.param("partial_events_permille", 0.0) as u64;
                         let k = key(&[self.plan.seed, self.plan.run, self.call + 1, 0x7061_7274]);
                         let take = if partial > 0 && k % 1000 < partial { ((k >> 20) % 3) as usize } else { usize::MAX };
+                        // a lazy reader (World A, only scenarios that set the parameter): the
+                        // embedding application handles frames, steps and flushes, but collects
+                        // received packets only in some of its turns
+                        let lazy = self.plan.param("hc_lazy_reader_permille", 0.0) as u64;
+                        let read = !(lazy > 0 && (k >> 32) % 1000 < lazy);
                         self.guarded(ep, op, oracles, move |e, out| match &mut e.obj {
-                            EpObj::Hc(hc) => hc_step(hc, &mut e.inbox, peer_addr.unwrap(), out),
+                            EpObj::Hc(hc) => hc_step(hc, &mut e.inbox, peer_addr.unwrap(), out, read),
                             EpObj::Client(c) => {
                                 for ev in c.step().take(take) {
                                     out.events.push((None, client_event(ev)));
@@ -1570,7 +1575,7 @@ fn server_event(ev: uflow::server::Event) -> (SocketAddr, AppEvent) {
 }
 
 /// World A glue: exactly what `Client::step` does for an active connection, in the same order.
-fn hc_step(hc: &mut uv::HalfConnection, inbox: &mut VecDeque<(SocketAddr, Rc<Vec<u8>>)>, peer_addr: SocketAddr, out: &mut CallOut) {
+fn hc_step(hc: &mut uv::HalfConnection, inbox: &mut VecDeque<(SocketAddr, Rc<Vec<u8>>)>, peer_addr: SocketAddr, out: &mut CallOut, read: bool) {
     let mut sink = VecFrameSink { frames: Vec::new() };
     hc.flush(&mut sink);
     while let Some((src, bytes)) = inbox.pop_front() {
@@ -1588,7 +1593,9 @@ fn hc_step(hc: &mut uv::HalfConnection, inbox: &mut VecDeque<(SocketAddr, Rc<Vec
     }
     hc.step();
     let mut psink = VecPacketSink { packets: Vec::new() };
-    hc.receive(&mut psink);
+    if read {
+        hc.receive(&mut psink);
+    }
     for f in sink.frames {
         out.frames.push((peer_addr, f));
     }
@@ -1599,7 +1606,41 @@ fn hc_step(hc: &mut uv::HalfConnection, inbox: &mut VecDeque<(SocketAddr, Rc<Vec
 
 /// Executes a plan against a set of oracles. The final `Teardown` record (heap accounting after
 /// every endpoint has been dropped) is delivered here, once the run's own buffers are gone.
+///
+/// Every execution runs on a thread of its own. Whatever the library keeps in thread-local or
+/// lazily initialised per-thread state (a seeded change did: a pool of spare blocks that outlives
+/// the connection) therefore cannot carry over from one execution to the next, and the same plan
+/// gives the same result whichever worker runs it and however often. The calling thread waits for
+/// the result, so oracles and adversary are only ever touched by one thread at a time.
 pub fn execute(plan: &Plan, oracles: &mut Vec<Box<dyn Oracle>>, opts: ExecOpts, adversary: Option<Box<dyn Adversary>>) -> Result<RunOutcome, String> {
+    struct Shuttle<T>(T);
+    unsafe impl<T> Send for Shuttle<T> {}
+    impl<T> Shuttle<T> {
+        fn take(self) -> T {
+            self.0
+        }
+    }
+    let worker = crate::watchdog::current_worker();
+    let args = Shuttle((oracles, adversary));
+    std::thread::scope(|scope| {
+        let h = std::thread::Builder::new()
+            .stack_size(16 << 20)
+            .spawn_scoped(scope, move || {
+                let (oracles, adversary) = args.take();
+                crate::watchdog::register_worker(worker);
+                let r = execute_here(plan, oracles, opts, adversary);
+                alloc::drain_quarantine();
+                Shuttle(r)
+            })
+            .map_err(|e| format!("cannot start the execution thread: {}", e))?;
+        match h.join() {
+            Ok(r) => r.take(),
+            Err(p) => std::panic::resume_unwind(p),
+        }
+    })
+}
+
+fn execute_here(plan: &Plan, oracles: &mut Vec<Box<dyn Oracle>>, opts: ExecOpts, adversary: Option<Box<dyn Adversary>>) -> Result<RunOutcome, String> {
     let n = plan.endpoints.len();
     let base: Vec<i64> = (0..=n).map(|d| alloc::live(d)).collect();
     let base_blocks: Vec<i64> = (0..=n).map(|d| alloc::live_blocks(d)).collect();
